@@ -119,6 +119,35 @@ func (m *tstPanic) Handle(mc *gnet.MessageContext, state interface{}) error {
 	return nil
 }
 
+// ---- message handlers: every message the receive path yields is also handed to
+// its real Handle + process on a recording daemoner (hook VerifC23Node)
+
+var introPK = cipher.MustPubKeyFromHex("0328c576d3f420e7682058a981173a4b374c7cc5ff55bf394d3cf57059bbe6456a")
+var introGenesis = cipher.SumSHA256([]byte("c22 genesis"))
+
+const introUA = "skycoin:0.27.0"
+
+func handlerCfg() daemon.DaemonConfig {
+	cfg := daemon.NewDaemonConfig()
+	cfg.BlockchainPubkey = introPK
+	cfg.GenesisHash = introGenesis
+	cfg.Mirror = 0x7fffff01
+	cfg.MaxOutgoingMessageLength = 2048
+	return cfg
+}
+
+var handlerBlocks []coin.SignedBlock
+var handlerTxns coin.Transactions
+
+// runHandler: true = Handle + process returned (whatever they decided), false = a panic
+func runHandler(m gnet.Message) bool {
+	node := &daemon.VerifC23Node{Cfg: handlerCfg(), Blocks: handlerBlocks, Known: handlerTxns}
+	for _, t := range handlerTxns {
+		node.Unknown = append(node.Unknown, t.Hash())
+	}
+	return !Guard(func() { _ = node.VerifC23Deliver(m, "112.32.32.14:6000", 1) })
+}
+
 // ---- helpers
 
 func encFrame(f []byte) []byte {
@@ -472,8 +501,12 @@ func randMessage(r *Rng, hist Hist) gnet.Message {
 		hist.Add("msg:INTR")
 		var pk cipher.PubKey
 		copy(pk[:], r.Bytes(33))
+		gh := randHash(r)
+		if r.Bool() { // the pubkey / genesis hash the receiving node is configured with
+			pk, gh = introPK, introGenesis
+		}
 		return daemon.NewIntroductionMessage(uint32(r.U64()), int32(r.Intn(5)), uint16(r.Intn(65536)), pk,
-			"skycoin:0.27.0", params.VerifyTxn{BurnFactor: 10, MaxTransactionSize: 32768, MaxDropletPrecision: 3}, randHash(r))
+			introUA, params.VerifyTxn{BurnFactor: 10, MaxTransactionSize: 32768, MaxDropletPrecision: 3}, gh)
 	case 12:
 		hist.Add("msg:TSTA")
 		return &tstMsg{Payload: r.Bytes(r.Intn(12))}
@@ -607,8 +640,23 @@ func run(args []string) error {
 
 	// ------------------------------------------------------------ streams
 	var streams []string
+	var deliveredFrames [][]byte
+	deliveredSeen := map[string]bool{}
+	maxDelivered := 150
+	if thorough {
+		maxDelivered = 3000
+	}
 	addStream := func(kind int, max int, chunks [][]byte, intended [][]byte, what string) {
 		d, rest, code := drive(max, chunks)
+		for _, fr := range d {
+			var id gnet.MessagePrefix
+			copy(id[:], fr)
+			_, known := gnet.MessageIDReverseMap[id]
+			if k := string(fr); len(deliveredFrames) < maxDelivered && !deliveredSeen[k] && (known || len(deliveredFrames) < 20) {
+				deliveredSeen[k] = true
+				deliveredFrames = append(deliveredFrames, fr)
+			}
+		}
 		// the same reads through the real readLoop; printed only when it differs from
 		// what decodeData over a persistent buffer gave (None = byte-identical observation)
 		d2, rest2, code2 := driveReadLoop(max, chunks)
@@ -753,6 +801,10 @@ func run(args []string) error {
 	o.Def("cases_stream", "Z * Z * list bytes * list bytes * (list bytes * bytes * Z) * option (list bytes * bytes * Z)", streams)
 
 	// ------------------------------------------------------------ convert
+	for i := 0; i < 3; i++ {
+		handlerBlocks = append(handlerBlocks, randBlock(r))
+		handlerTxns = append(handlerTxns, randTxn(r))
+	}
 	var convs []string
 	addConv := func(frame []byte, what string, valid bool) {
 		orc, ocl := oracle(frame)
@@ -772,8 +824,15 @@ func run(args []string) error {
 				same = err2 == nil && bytes.Equal(e, encFrame(frame))
 			})
 		}
-		convs = append(convs, Tuple(PB(frame), orc, fmt.Sprint(code), B(same)))
-		cj := map[string]interface{}{"frame": fmt.Sprintf("%x", frame), "decoder": orc, "result": code, "reencodes_equal": same, "what": what}
+		// a frame that converts to a message goes on to the message's real Handle + process
+		handlerOK := true
+		if code == 0 && m != nil {
+			handlerOK = runHandler(m)
+			hist.Add(fmt.Sprintf("handler:%T:%s", m, map[bool]string{true: "returned", false: "PANIC"}[handlerOK]))
+		}
+		convs = append(convs, Tuple(PB(frame), orc, fmt.Sprint(code), B(same), B(handlerOK)))
+		cj := map[string]interface{}{"frame": fmt.Sprintf("%x", frame), "decoder": orc, "result": code, "reencodes_equal": same, "what": what,
+			"handler_returned_without_panic": handlerOK}
 		caseJSON["convert"] = append(caseJSON["convert"], cj)
 		o.Count("conv"+fmt.Sprintf("%x", frame), true)
 		hist.Add(fmt.Sprintf("convert:%s:%s:result%d", what, ocl, code))
@@ -812,7 +871,15 @@ func run(args []string) error {
 			addConv(r.Bytes(r.Intn(12)), "random", false)
 		}
 	}
-	o.Def("cases_convert", "bytes * decoded * Z * bool", convs)
+	// frames delivered by the stream runs above (valid sequences and garbage streams)
+	for _, fr := range deliveredFrames {
+		addConv(fr, "delivered-in-stream", false)
+	}
+	// well-formed frames with adversarial bodies
+	for _, fr := range adversarialFrames(r, thorough) {
+		addConv(fr, "adversarial-body", false)
+	}
+	o.Def("cases_convert", "bytes * decoded * Z * bool * bool", convs)
 
 	// ------------------------------------------------------------ pool over net.Pipe
 	var pools []string
@@ -1004,6 +1071,130 @@ func rle64(xs []string) string {
 		i = j
 	}
 	return List(it)
+}
+
+// adversarialFrames: frames whose length prefix and message id are fine and whose
+// body has every cheaply built length-valid shape
+func adversarialFrames(r *Rng, thorough bool) [][]byte {
+	var out [][]byte
+	add := func(m gnet.Message) {
+		var b []byte
+		if !Guard(func() { b = encodeMsg(m) }) && len(b) >= 8 {
+			out = append(out, b[4:])
+		}
+	}
+	raw := func(id string, body []byte) { out = append(out, append([]byte(id), body...)) }
+	le32 := func(n uint32) []byte { b := make([]byte, 4); binary.LittleEndian.PutUint32(b, n); return b }
+
+	// INTR: Extra of every length: all prefixes of a valid Extra (ends right after the
+	// pubkey, the verify params, the user agent, inside / after the genesis hash ...),
+	// valid Extra plus trailing bytes, broken and empty user agents
+	vp := params.VerifyTxn{BurnFactor: 10, MaxTransactionSize: 32768, MaxDropletPrecision: 3}
+	full := daemon.NewIntroductionMessage(1, 2, 6000, introPK, introUA, vp, introGenesis).Extra
+	for _, ver := range []int32{2, 0} {
+		for l := 0; l <= len(full); l++ {
+			add(&daemon.IntroductionMessage{Mirror: 77, ListenPort: 6000, ProtocolVersion: ver, Extra: append([]byte{}, full[:l]...)})
+		}
+		if !thorough {
+			break
+		}
+	}
+	for extra := 1; extra <= 40; extra += 3 {
+		add(&daemon.IntroductionMessage{Mirror: 77, ListenPort: 6000, ProtocolVersion: 2, Extra: append(append([]byte{}, full...), r.Bytes(extra)...)})
+	}
+	uaOff := 33 + 9
+	for _, ua := range []string{"", "x", "skycoin:0.27", "skycoin:0.27.0(", "\x00\x01", string(r.Bytes(20))} {
+		e := append([]byte{}, full[:uaOff]...)
+		e = append(e, le32(uint32(len(ua)))...)
+		e = append(e, ua...)
+		for _, tail := range [][]byte{nil, introGenesis[:], introGenesis[:31], r.Bytes(33)} {
+			add(&daemon.IntroductionMessage{Mirror: 77, ListenPort: 6000, ProtocolVersion: 2, Extra: append(append([]byte{}, e...), tail...)})
+		}
+	}
+	for _, n := range []uint32{0, 1, 13, 14, 15, 255, 256, 257, 0xFFFFFFFF} { // user agent length prefix not matching
+		e := append([]byte{}, full[:uaOff]...)
+		e = append(e, le32(n)...)
+		e = append(e, introUA...)
+		e = append(e, introGenesis[:]...)
+		add(&daemon.IntroductionMessage{Mirror: 77, ListenPort: 6000, ProtocolVersion: 2, Extra: e})
+	}
+	for l := 0; l <= 80; l += 1 { // Extra of every length 0..80 of arbitrary bytes, and with only the pubkey right
+		add(&daemon.IntroductionMessage{Mirror: 78, ListenPort: 1, ProtocolVersion: 2, Extra: r.Bytes(l)})
+		if l >= 33 {
+			add(&daemon.IntroductionMessage{Mirror: 78, ListenPort: 1, ProtocolVersion: 2, Extra: append(append([]byte{}, introPK[:]...), r.Bytes(l-33)...)})
+		}
+	}
+	add(&daemon.IntroductionMessage{Mirror: 0x7fffff01, ListenPort: 6000, ProtocolVersion: 2, Extra: full}) // our own mirror
+	raw("INTR", []byte{1, 0, 0, 0, 2, 0, 3, 0, 0, 0})                                                          // no Extra field at all (omitempty)
+
+	// slice messages: zero / one / maximum / maximum+1 counts, count prefix without data
+	hashes := func(n int) []cipher.SHA256 {
+		hs := make([]cipher.SHA256, n)
+		for i := range hs {
+			hs[i] = randHash(r)
+		}
+		return hs
+	}
+	// (maximum+1 and the second copy of the large ones only in the thorough tier: they dominate the data volume)
+	pick := func(quick, all []int) []int {
+		if thorough {
+			return all
+		}
+		return quick
+	}
+	for _, n := range pick([]int{0, 1, 256}, []int{0, 1, 255, 256, 257}) {
+		add(&daemon.GetTxnsMessage{Transactions: hashes(n)})
+		if thorough || n < 256 {
+			add(&daemon.AnnounceTxnsMessage{Transactions: hashes(n)})
+		}
+	}
+	for _, n := range pick([]int{0, 1, 512}, []int{0, 1, 511, 512, 513}) {
+		ps := make([]daemon.IPAddr, n)
+		for i := range ps {
+			ps[i] = daemon.IPAddr{IP: uint32(r.U64()), Port: uint16(r.Intn(65536))}
+		}
+		add(&daemon.GivePeersMessage{Peers: ps})
+	}
+	add(&daemon.GivePeersMessage{Peers: []daemon.IPAddr{{IP: 0, Port: 0}, {IP: 0xFFFFFFFF, Port: 65535}, {IP: 0x7F000001, Port: 80}}})
+	for _, n := range pick([]int{0, 1, 2, 128}, []int{0, 1, 2, 128, 129}) {
+		bs := make([]coin.SignedBlock, n)
+		for i := range bs {
+			if n <= 2 {
+				bs[i] = randBlock(r)
+			}
+		}
+		add(&daemon.GiveBlocksMessage{Blocks: bs})
+	}
+	for _, n := range pick([]int{0, 1, 2, 256}, []int{0, 1, 2, 256, 257}) {
+		ts := make([]coin.Transaction, n)
+		for i := range ts {
+			if n <= 2 {
+				ts[i] = randTxn(r)
+			}
+		}
+		add(&daemon.GiveTxnsMessage{Transactions: ts})
+	}
+	for _, id := range []string{"GIVP", "GIVB", "GIVT", "GETT", "ANNT"} {
+		for _, n := range []uint32{0, 1, 2, 128, 256, 512, 0x7FFFFFFF, 0xFFFFFFFF} {
+			raw(id, le32(n)) // count prefix, no items
+			raw(id, append(le32(n), r.Bytes(32)...))
+		}
+	}
+	for _, v := range []uint64{0, 1, 1 << 31, 1<<63 - 1, 1 << 63, ^uint64(0)} {
+		add(daemon.NewGetBlocksMessage(v, ^v))
+		add(daemon.NewGetBlocksMessage(^v, v))
+		add(daemon.NewAnnounceBlocksMessage(v))
+	}
+	for _, n := range []int{0, 1, 7, 64} {
+		raw("DISC", append(append([]byte{byte(r.Intn(256)), byte(r.Intn(40))}, le32(uint32(n))...), r.Bytes(n)...))
+	}
+	for code := 0; code < 40; code++ {
+		raw("DISC", append([]byte{byte(code), 0}, le32(0)...))
+	}
+	raw("PING", nil)
+	raw("PONG", nil)
+	raw("GETP", nil)
+	return out
 }
 
 func bucket(n int) string {
